@@ -126,4 +126,7 @@ pub struct HyraxProof<G: AffineRepr> {
     pub z_d: G::ScalarField,
     /// Auxiliary random scalar
     pub z_b: G::ScalarField,
+    /// Randomness of the commitment `com_eval` to the evaluation, which is
+    /// revealed to the verifier together with the evaluation itself
+    pub r_eval: G::ScalarField,
 }
